@@ -1216,6 +1216,13 @@ func mergeParagraphProperties(base, override *ParagraphProperties) *ParagraphPro
 		merged.OutlineLevel = base.OutlineLevel
 	}
 
+	// 合并网格对齐设置
+	if override.SnapToGrid != nil {
+		merged.SnapToGrid = override.SnapToGrid
+	} else if base.SnapToGrid != nil {
+		merged.SnapToGrid = base.SnapToGrid
+	}
+
 	return merged
 }
 
